@@ -116,6 +116,7 @@ PIXEL_SIMPLE = ('CirclePixelRegion', 'EllipsePixelRegion',
 
 ASSIGNABLE = ('CirclePixelRegion', 'EllipsePixelRegion',
               'RectanglePixelRegion', 'PolygonPixelRegion',
+              'RegularPolygonPixelRegion',
               'CircleAnnulusPixelRegion', 'EllipseAnnulusPixelRegion',
               'RectangleAnnulusPixelRegion', 'PointPixelRegion',
               'LinePixelRegion', 'TextPixelRegion')
@@ -132,6 +133,8 @@ def _decoy(spec):
               'inner_width', 'outer_width', 'inner_height', 'outer_height'):
         if k in d:
             d[k] = float(d[k]) * 1.75 + 0.5
+    if 'nvertices' in d:
+        d['nvertices'] = int(d['nvertices']) + 2
     if d.get('angle') is not None:
         d['angle'] = [d['angle'][0] + 0.3, d['angle'][1]] + list(d['angle'][2:])
     elif 'angle' in d:
@@ -252,7 +255,10 @@ def build(spec):
         obj.meta = target.meta
         obj.visual = target.visual
         return obj
-    if spec.get('build') == 'inplace' and cls in ASSIGNABLE:
+    if (spec.get('build') == 'inplace' and cls in ASSIGNABLE
+            and cls != 'RegularPolygonPixelRegion'):
+        # (a regular polygon derives its vertices when a parameter is
+        # ASSIGNED; writing into its centre object is not an assignment)
         # the same object, USED, then moved by writing INTO the coordinate
         # objects it holds (region.center.x = ..., vertices.x[...] = ...) and
         # into its meta dict: no attribute of the region is assigned, so a
